@@ -96,7 +96,7 @@ package ttlcache
 //@ func (*Cache).startBackgroundCleanup
 //@   tags C15 C07
 //@   opt go=ignore
-//@   requires c != nil
+//@   requires c != nil && inv(c)
 //@   modifies c.runningCh
 
 //@ func NewCache
@@ -127,6 +127,7 @@ package ttlcache
 // every Stop waits for -- is the last thing it does (deferred first, so run last), never earlier.
 //@ func (*Cache).startBackgroundCleanup$1
 //@   tags C15
+//@   opt go=detached
 //@   requires c != nil && c.clock != nil && inv(c)
 //@   ghost stopseen int
 //@   at call NewTicker#0 ghost stopseen = 0
